@@ -329,7 +329,7 @@ def _wiring(chk):
         for m, q, fn, call in sites.call_sites(RTBP, target, modules=[mod]):
             n += 1
             bound, extra, star = sites.bind_call(call, fdef)
-            got = tuple(ast.unparse(bound[k]) if k in bound else None for k in fdef.args.args[:3] for k in [k.arg])
+            got = tuple(sites.arg_text(fn, bound[k]) if k in bound else None for k in fdef.args.args[:3] for k in [k.arg])
             ok = got == ("self.var_dynsys", "self.initial_state", "self.period")
             fwd = bound.get("forward")
             ok = ok and (fwd is None or sites.const_int(fwd) == 1)
